@@ -243,6 +243,9 @@ func NewNNSDriver(mode string) *NNSDriver {
 			nnsOp{kind: "transfer", name: "x.aa.com", who: "U2", signer: s("U1")},
 			nnsOp{kind: "setAdmin", name: "aa.com", who: "D", signer: s("U1", "D")},
 			nnsOp{kind: "setAdmin", name: "x.aa.com", who: "D", signer: s("U1", "D")},
+			// an owner who appoints itself administrator: the role must not outlive the ownership either
+			nnsOp{kind: "setAdmin", name: "aa.com", who: "U1", signer: s("U1")},
+			nnsOp{kind: "setAdmin", name: "x.aa.com", who: "U1", signer: s("U1")},
 			nnsOp{kind: "time", step: "exp"},
 			// x.aa.com was registered a block (1 ms) after aa.com: one more millisecond and both have expired, which
 			// opens the take-over of the sub-name by somebody else
